@@ -150,6 +150,7 @@ class Interp:
         self.log = []
         self.globals = {}
         self.depth = 0
+        self.stats = {}
 
     # ------------------------------------------------------------------ types
     def base(self, ty):
@@ -225,6 +226,8 @@ class Interp:
         frame = {}
         for (pname, pty, va), av in zip(fd.params, argvals):
             if va:
+                if len(av) >= 2 and isinstance(av[0], (Sum, Str)):
+                    self.stats["varargs_aggregate_elems_ge2"] = self.stats.get("varargs_aggregate_elems_ge2", 0) + 1
                 frame[pname] = Cell(Slc(Arr([Cell(copyv(x)) for x in av])))
             else:
                 frame[pname] = Cell(copyv(av))
@@ -488,6 +491,12 @@ class Interp:
             if v.tag == "nil":
                 raise _Return(Sum("nil", None))
             if v.tag == "err":
+                # the error is returned; a function whose result is ?E receives it as a present value (README: `.try`
+                # is `switch .. { E => { return inner; } }`, and `return inner` converts E to ?E)
+                if getattr(e, "into", "err") == "opt":
+                    self.stats["try_err_into_opt_taken"] = self.stats.get("try_err_into_opt_taken", 0) + 1
+                    raise _Return(Sum("some", copyv(v.payload)))
+                self.stats["try_err_taken"] = self.stats.get("try_err_taken", 0) + 1
                 raise _Return(Sum("err", copyv(v.payload)))
             return v.payload
         if k == "lambda":
@@ -530,6 +539,9 @@ class Interp:
         t = self.base(ty)
         if op in ("==", "!="):
             r = equal(a, b)
+            if isinstance(a, Str):
+                k_ = "struct_eq_equal" if r else "struct_eq_differ"
+                self.stats[k_] = self.stats.get(k_, 0) + 1
             return r if op == "==" else not r
         if op in ("<", "<=", ">", ">="):
             return {"<": a < b, "<=": a <= b, ">": a > b, ">=": a >= b}[op]
@@ -627,4 +639,5 @@ class Interp:
 def run_program(prog, max_steps=300000, max_events=3000):
     it = Interp(prog, max_steps, max_events)
     log, status, fault = it.run()
+    prog.runtime_stats = it.stats
     return log, status, fault, it.steps
